@@ -96,6 +96,29 @@ type c18Deep struct {
 	Y *c18Other `json:"y,omitempty"`
 	L []c18Q    `json:"l"`
 }
+
+// an embedded struct whose TYPE NAME is unexported: encoding/json still promotes its exported fields
+type c18base struct {
+	ID   int    `json:"id"`
+	Note string // no tag
+}
+type c18WithBase struct {
+	c18base
+	Name string `json:"name"`
+}
+type c18WithBasePtr struct {
+	*c18base
+	Name string `json:"name"`
+}
+
+// a recursive type whose nodes carry fields that are not encoded after their Go kind
+type c18RichNode struct {
+	Label string       `json:"label"`
+	Stamp time.Time    `json:"stamp"`
+	Blob  []byte       `json:"blob"`
+	Extra interface{}  `json:"extra"`
+	Next  *c18RichNode `json:"next,omitempty"`
+}
 type c18Twice struct {
 	X c18Inner  `json:"x"`
 	Y c18Inner  `json:"y"`
@@ -158,6 +181,12 @@ func c18FieldType(kind string) (reflect.Type, bool) {
 		return reflect.TypeOf(c18A{}), false
 	case "shared-twice":
 		return reflect.TypeOf(c18Twice{}), false
+	case "emb-unexported":
+		return reflect.TypeOf(c18WithBase{}), false
+	case "emb-unexported-ptr":
+		return reflect.TypeOf(c18WithBasePtr{}), false
+	case "self-rich":
+		return reflect.TypeOf((*c18RichNode)(nil)), false
 	case "deep-shared":
 		return reflect.TypeOf(c18Deep{}), false
 	case "array-byte":
